@@ -19,6 +19,7 @@
   limit, whether the endpoint latch is closed under a guard, what the stdio loop does after a decode error.
 -/
 import Mcp.Model.Json
+import Mcp.Gen.PendingFacts
 namespace Mcp.Readers
 open Mcp.Str Mcp.Json
 
@@ -117,13 +118,27 @@ abbrev Answer := Json × Bool
 
 /-! ## JSON-RPC envelope helpers (jsonrpc.go) -/
 
-/-- `fmt.Sprintf("%v", id) == fmt.Sprintf("%v", reqID)` where `reqID` is the `int64` counter value `req` and `id` came out
-    of `json.Unmarshal` into `interface{}`: a number is a `float64` (digits below 10^6, exponent form from there on —
-    never equal to the digits of an `int64`), a string prints as itself. -/
-def idMatches (req : Nat) : Json → Bool
-  | .int i => decide (i = Int.ofNat req) && decide (req < 1000000)
-  | .str s => decide (s = natDigits req)
+/-- The id comparison of the POST-SSE matcher and of the legacy SSE table, for the two renderings the tree has had
+    (`id` came out of `json.Unmarshal` into `interface{}`: a number is a `float64`; `req` is the `int64` counter):
+    * `idKey = true` — `requestIDKey(id) == requestIDKey(reqID)`: `"n:<integer digits>"` for an integral number,
+      `"s:<string>"` for a string, so a number matches iff it is the counter value and a string never does;
+    * `idKey = false` — `fmt.Sprintf("%v", …)` on both sides (before the D01 repair): a float64 prints its digits below
+      10^6 and in exponent form from there on — never equal to the digits of an `int64` — and a string prints as itself.
+    (Numbers are exact in the model; float64 rounding above 2^53 and of near-integers is outside it.) -/
+def idMatchesK (idKey : Bool) (req : Nat) : Json → Bool
+  | .int i => decide (i = Int.ofNat req) && (idKey || decide (req < 1000000))
+  | .str s => !idKey && decide (s = natDigits req)
   | _ => false
+
+/-- regenerated fact: both sides of the Streamable POST-SSE matcher and of the legacy SSE client's table render ids with
+    `requestIDKey` -/
+def idKeyToday : Bool :=
+  Mcp.Gen.pdPostSseMatcher == (t!"idKey", t!"idKey") &&
+  Mcp.Gen.pdTables.all (fun tb => tb.name != t!"sse_client.responses" ||
+    (tb.insertKind == t!"idKey" && tb.lookupKinds.all (· == t!"idKey")))
+
+/-- the comparison the tree makes today -/
+def idMatches (req : Nat) (id : Json) : Bool := idMatchesK idKeyToday req id
 
 /-- the stdio transport's `switch id := response.ID.(type)`: `float64` is converted with `int64(id)` (truncation) -/
 def idInt64 : Json → Option Int
